@@ -13,13 +13,27 @@ Proof. vm_compute. reflexivity. Qed.
 Theorem C07_current_facts_ok : facts_ok current_facts = true.
 Proof. vm_compute. reflexivity. Qed.
 
+(** getAccountWithoutBalance as it stands in /repo hands the stored sequence of EVERY account type to the
+    StateDB (the nonce is not filled in under the EthAccountI type assertion only) *)
+Theorem C07_current_loader_faithful :
+  exists l, loader_of (f_loader current_facts) = Some l /\ loader_faithful l.
+Proof. exists load_std. split; [vm_compute; reflexivity|intros k q; reflexivity]. Qed.
+
+(** for every assignment of auth account types to addresses and whatever the messages touch *)
 Theorem C07_holds_for_current_tree :
-  forall chain recover A s ts, hash_binding chain recover ts ->
-  P chain recover A s (trace chain recover evm_ante_chain s ts) /\
-  forall u, (count_occ Nat.eq_dec (all_executed (trace chain recover evm_ante_chain s ts)) u <= 1)%nat.
+  forall l, loader_of (f_loader current_facts) = Some l ->
+  forall chain recover kinds A s ts, hash_binding chain recover ts ->
+  P chain recover A s (trace chain recover kinds l evm_ante_chain s ts) /\
+  (forall u, (count_occ Nat.eq_dec (all_executed (trace chain recover kinds l evm_ante_chain s ts)) u <= 1)%nat) /\
+  (forall t a, proj a (tx_claims chain recover t) = [] ->
+               fst (deliver chain recover kinds l evm_ante_chain s t) a = s a).
 Proof.
-  intros chain recover A s ts Hb. split.
-  - exact (C07_model_satisfies_P chain recover A evm_ante_chain s ts C07_current_chain_wf Hb).
-  - intro u. exact (C07_at_most_once chain recover evm_ante_chain s ts u C07_current_chain_wf Hb).
+  intros l Hl chain recover kinds A s ts Hb.
+  assert (Hf : loader_faithful l).
+  { destruct C07_current_loader_faithful as [l' [Hl' Hf]]. congruence. }
+  split; [|split].
+  - exact (C07_model_satisfies_P chain recover kinds l Hf A evm_ante_chain s ts C07_current_chain_wf Hb).
+  - intro u. exact (C07_at_most_once chain recover kinds l Hf evm_ante_chain s ts u C07_current_chain_wf Hb).
+  - intros t a. exact (C07_only_own_txs_move_sequence chain recover kinds l Hf evm_ante_chain s t a C07_current_chain_wf).
 Qed.
 Print Assumptions C07_holds_for_current_tree.
